@@ -2406,6 +2406,42 @@ class ABIDecode(BuiltinFunctionT):
         _, output_type = self.infer_arg_types(node)
         return output_type.typedef
 
+    @staticmethod
+    def _unwrap_tuple_kwarg(node):
+        # value of the (literal) `unwrap_tuple` kwarg, as seen by semantic analysis
+        for kw in node.keywords:
+            if kw.arg == "unwrap_tuple":
+                try:
+                    return kw.value.get_folded_value().value is not False
+                except UnfoldableNode:
+                    # not a literal; rejected by kwarg validation
+                    return True
+        return True
+
+    @staticmethod
+    def _check_input_size(node, data_typ, output_typ, unwrap_tuple):
+        """
+        Static part of the size validation, shared by semantic analysis and
+        code generation: the input buffer must be able to hold the largest
+        encoding of the (wrapped) output type. Returns the wrapped type.
+        """
+        wrapped_typ = output_typ
+        if unwrap_tuple is True:
+            wrapped_typ = calculate_type_for_external_return(output_typ)
+
+        abi_size_bound = wrapped_typ.abi_type.size_bound()
+
+        if data_typ.maxlen < abi_size_bound:
+            raise StructureException(
+                (
+                    "Mismatch between size of input and size of decoded types. "
+                    f"length of ABI-encoded {wrapped_typ} must be equal to or greater "
+                    f"than {abi_size_bound}"
+                ),
+                node.args[0],
+            )
+        return wrapped_typ
+
     def infer_arg_types(self, node, expected_return_typ=None):
         self._validate_arg_types(node)
 
@@ -2413,6 +2449,10 @@ class ABIDecode(BuiltinFunctionT):
 
         data_type = get_exact_type_from_node(node.args[0])
         output_type = type_from_annotation(node.args[1])
+
+        # reject a statically too small input here, so that a program
+        # accepted by semantic analysis is accepted by every code generator
+        self._check_input_size(node, data_type, output_type, self._unwrap_tuple_kwarg(node))
 
         return [data_type, TYPE_T(output_type)]
 
@@ -2422,27 +2462,17 @@ class ABIDecode(BuiltinFunctionT):
 
         data = args[0]
         output_typ = args[1]
-        wrapped_typ = output_typ
 
-        if unwrap_tuple is True:
-            wrapped_typ = calculate_type_for_external_return(output_typ)
+        # same predicate as semantic analysis, on the type analysis saw (a
+        # folded argument can have a tighter type; its length is checked
+        # at runtime below like any other input)
+        data_typ = expr.args[0]._metadata.get("type", data.typ)
+        wrapped_typ = self._check_input_size(expr, data_typ, output_typ, unwrap_tuple)
 
         abi_size_bound = wrapped_typ.abi_type.size_bound()
         abi_min_size = wrapped_typ.abi_type.static_size()
 
-        # Get the size of data
-        input_max_len = data.typ.maxlen
-
         assert abi_min_size <= abi_size_bound, "bad abi type"
-        if input_max_len < abi_size_bound:
-            raise StructureException(
-                (
-                    "Mismatch between size of input and size of decoded types. "
-                    f"length of ABI-encoded {wrapped_typ} must be equal to or greater "
-                    f"than {abi_size_bound}"
-                ),
-                expr.args[0],
-            )
 
         data = ensure_in_memory(data, context)
 
